@@ -6,7 +6,7 @@ ROOT = os.path.dirname(os.path.dirname(os.path.abspath(__file__)))
 # id -> (level category, technique, level text, level note, DESIGN section)
 CHECKS = {
  "C01": ("exploration", "runtime monitoring: state-machine explorer (BFS over abstract states + random walks) with a signature re-verification monitor after every call",
-         "The real channel.StateMachine is driven through every operation of the complete alphabet (incl. wrong/foreign/replayed/short/empty/nil signatures at every index, forced updates, all phase setters) from every abstract state reachable within the depth bound, plus random walks of length 30; after every call (successful or not) the monitor re-verifies every signature of the current and the staging transaction with channel.Verify. Held on the sequences executed.",
+         "The real channel.StateMachine is driven through every operation of the complete alphabet (incl. wrong/foreign/replayed/short/empty/nil signatures at every index, forced updates, all phase setters) from every abstract state reachable within the depth bound, plus random walks of length 30; after every call (successful or not) the monitor re-verifies every signature of the current and the staging transaction with channel.Verify and requires it to survive the transaction wire format (EncodeSparseSigs/DecodeSparseSigs). Worlds live on one to three wallet backends (harness-registered ids 1 and 2 besides sim's 0); in split-key worlds a participant's keys differ between its backends and every AddSig for it must fail atomically. Held on the sequences executed.",
          "Trusted: channel.Verify/Sign of the sim backend (their binding to one state is C15's subject); explorer branching uses channel.RestoreStateMachine on harness-made snapshots; bounded depth.",
          "DESIGN.md §5 C01"),
  "C02": ("exploration", "runtime monitoring: differential test of Update/CheckUpdate/Init against an independent reference predicate over single-condition mutants",
@@ -19,22 +19,22 @@ CHECKS = {
          "DESIGN.md §5 C09, appendix D"),
  "C13": ("exploration", "runtime monitoring: decoders run in address-space-limited child processes under a panic/fatal-error monitor and a limit oracle over mutated and constructed inputs",
          "67 decoders are fed random bytes, every truncation / bit flip / interesting-value splice of valid encodings, structural protobuf mutations and constructive over-limit encodings; a recovered panic, a dead child (attributed through a last-case file) or an accepted over-limit value is a violation.",
-         "Trusted: recover() and the parent's attribution of child deaths; inputs are generated, not exhaustive; only backend 0 is registered. Large-but-legal allocations are not violations.",
+         "Trusted: recover() and the parent's attribution of child deaths; inputs are generated, not exhaustive; wallet backends 0 (sim) and, when the harness build with extra backends succeeded, 1 and 2 are registered. Large-but-legal allocations are not violations.",
          "DESIGN.md §5 C13"),
  "C14": ("exploration", "runtime monitoring: generated values through the real codecs, oracle = structural comparison + byte comparison of re-encodings",
          "Every wire type (16 value codecs, all 17 message types natively and through both envelope serializers) is round-tripped on generated values; the monitor compares the decoded value structurally (reflect-based canonical form), with the type's own Equal, checks that exactly the written bytes were consumed inside a longer stream, that re-encoding is byte-stable and that the native encoding of the protobuf round-tripped envelope equals the original's. Held on the values generated, not a proof over all values.",
-         "Trusted: the canonical-form walker of the harness; generators cover shapes up to the documented limits but only backend 0 exists. Explicit >64KiB protobuf frame errors are abstentions.",
+         "Trusted: the canonical-form walker of the harness; generators cover shapes up to the documented limits on wallet backends 0 (sim) and the harness-registered 1 and 2. Explicit >64KiB protobuf frame errors are abstentions.",
          "DESIGN.md §5 C14"),
  "C15": ("exploration", "runtime monitoring: Equal vs. byte equality of encodings over single-field mutants; Verify over (signer, verifier, state pair) triples",
          "For generated base states every single-field mutator (26, incl. each nested locked/index-map field and each dimension), clones, double mutations and unrelated states are compared: Equal of State/Allocation/Balances/SubAlloc/SubAllocs must agree with byte equality of the encodings, and a signature must verify exactly for the signer's key and an equal state.",
          "Trusted: the encoders (their faithfulness is C14's subject). Values that cannot be encoded are skipped.",
          "DESIGN.md §5 C15"),
  "C16": ("exploration", "runtime monitoring: envelope streams decoded through a chunking io.Reader under many partitions, compared with the contiguous decode",
-         "Streams of 1-5 envelopes per serializer are read through a reader that delivers the bytes in chunks (whole, 1-byte, every two-chunk split point, MSS-sized, random); every envelope must decode to the same envelope as from the contiguous buffer.",
+         "Streams of 1-5 envelopes per serializer are read through a reader that delivers the bytes in chunks (whole, 1-byte, every two-chunk split point, MSS-sized, random), a third of them through wire/net's ioConn.Recv; every envelope must decode to the same envelope as from the contiguous buffer.",
          "Trusted: the chunking reader models an open connection as the statement specifies (no (0,nil), EOF only after the last byte). Split points are sampled for streams above 6000 bytes.",
          "DESIGN.md §5 C16"),
  "C17": ("exploration", "runtime monitoring: ID comparison across clones, round trips and single-field variants of generated parameter sets; constructor/decoder fed constraint violations",
-         "For generated parameter sets the ID must survive clone, reconstruction, native and protobuf round trips, change under each of 13 single-field variants, be stamped on machine-created states, and NewParams/Params.Decode must refuse 9 kinds of constraint violations with an error.",
+         "For generated parameter sets the ID must survive clone, reconstruction, native and protobuf round trips, change under each of 15 single-field variants (incl. a participant moved to, or present on, another wallet backend), be stamped on machine-created states, and NewParams/Params.Decode must refuse 12 kinds of constraint violations with an error.",
          "Trusted: nothing beyond the generators; Aux is deliberately not asserted.",
          "DESIGN.md §5 C17"),
  "C19": ("exploration", "runtime monitoring: reflect/unsafe pointer-graph comparison and leaf scribbling on generated values and machines reached by random walks",
@@ -42,11 +42,11 @@ CHECKS = {
          "Trusted: the pointer-graph walker (harness/internal/ptrgraph); the shared set is taken from the statement (App, Asset, accounts, logger).",
          "DESIGN.md §5 C19"),
  "C05": ("exploration", "runtime monitoring: the real watcher driven by a scripted RegisterSubscriber through exhaustive short and random long histories, compared step by step with a reference model; concurrent publisher/event histories judged by an interval oracle on a shared logical counter, also under the race detector",
-         "Every operation (publish, adjudicator events with versions below/equal/above the published one, start/stop of sub-channels, refused and repeated stops) is followed by a barrier that makes its effects complete without sleeping; the Register calls received (parent version, per locked sub-channel the state version), the events on every EventStream and the results are compared exactly with the reference model of appendix B. In concurrent mode publishers of the parent and a sub-channel race with registered events (also the same registration on both channels at once): every Register call must carry versions between the newest one certainly consumed before the event and the newest one published before the call, must happen when a newer version had certainly been consumed, at most once, never without a newer version; relaying is exact; a data race inside watcher/local is a violation.",
+         "Every operation (publish, adjudicator events with versions below/equal/above the published one, start/stop of sub-channels, refused and repeated stops) is followed by a barrier that makes its effects complete without sleeping; the Register calls received (parent version, per locked sub-channel the state version), the events on every EventStream and the results are compared exactly with the reference model of appendix B. In concurrent mode publishers of the parent and a sub-channel race with registered events (also the same registration on both channels at once): every Register call must carry versions between the newest one certainly consumed before the event and the newest one published before the call, must happen when a newer version had certainly been consumed, at most once, never without a newer version; relaying is exact; a data race inside watcher/local is a violation. A de-registration racing with an event must return and leave the oracle intact, and a client that reads its event stream late (11-20 events piled up) must still receive all of them in order.",
          "Trusted: the reference model; single ledger and the statement's domain (locked sub-channels are watched or archived). The scripted Register always succeeds. The interval oracle's lower bound assumes a FIFO publish pipe whose capacity is read by reflection.",
          "DESIGN.md §5 C05, appendix B"),
  "C10": ("fault_enumeration", "runtime monitoring with fault injection: store frozen at every atomic write boundary of generated histories (memory: snapshot per boundary; LevelDB: re-run with later writes dropped, close, re-open), restored channel compared with live snapshots",
-         "For every history of the persisting state machine and every write boundary, RestoreChannel and RestorePeer must yield exactly the live machine's state before or after the interrupted operation (after, once its last write is in), and every restored staging signature must verify for the restored staged state.",
+         "For every history of the persisting state machine and every write boundary, RestoreChannel and RestorePeer must yield exactly the live machine's state before or after the interrupted operation (after, once its last write is in), and every restored staging signature must verify for the restored staged state; untouched sibling channels in the same store must come back unchanged at every boundary. Peers have one or several (also non-zero) backend ids, channels up to 101 participants and duplicate peer entries.",
          "Trusted: a batch is atomic (LevelDB's guarantee); crash points are write boundaries of the sortedkv interface, not torn writes inside LevelDB. Histories are generated, boundaries within them enumerated exhaustively (memory) or sampled (LevelDB, quick tier).",
          "DESIGN.md §5 C10"),
  "C11": ("fault_enumeration", "runtime monitoring: every restorer view compared with a reference map after every step of generated create/advance/remove histories, plus differential key-set replay",
@@ -62,15 +62,15 @@ CHECKS = {
          "Trusted: the scripted ledgers; completion order is controlled by releasing blocked sub-calls at harness-detected stable points (goroutine count), so no wall-clock verdicts.",
          "DESIGN.md §5 C20"),
  "C03": ("exploration", "runtime monitoring: generated life-cycle scenarios of two real clients on a strict reference ledger with a logical clock; conservation/payout oracle over ledger balances and recorded Enabled streams",
-         "Scenario programs (payments, accept/reject, optional sub-channel, cooperative or disputed settlement, settle order, secondary flags, funding agreements) run on the real client, watcher and state machines; the strict ledger verifies signatures/versions/challenge period and logs every call. After both Settle calls returned, each party's on-chain delta must equal its balance in the last state both enabled minus exactly the agreed funding, totals must be unchanged and nothing may remain held; a ledger refusal of an honest call is reported, and so is an honest update request that was delivered but never answered (judged from the recorded messages at quiescence).",
+         "Scenario programs (payments, accept/reject, optional sub-channel, cooperative or disputed settlement, settle order, secondary flags, funding agreements) run on the real client, watcher and state machines; the strict ledger verifies signatures/versions/challenge period and logs every call. After both Settle calls returned, each party's on-chain delta must equal its balance in the last state both enabled minus exactly the agreed funding, totals must be unchanged and nothing may remain held; a ledger refusal of an honest call is reported (except, in the ledger mode that accepts refutations only, the refusal of a registration that changes nothing), and so is an honest update request that was delivered but never answered (judged from the recorded messages at quiescence).",
          "Trusted: the strict ledger (harness/internal/ledger) as reference adjudicator, including that Withdraw waits for the challenge period like real backends; schedules come from bus noise, handler yields and the scheduler. Runs with timeouts or failing Settle calls are inconclusive for the payout oracle.",
          "DESIGN.md §5 C03"),
  "C04": ("exploration", "runtime monitoring with an adversary: recorded old transactions registered directly on the strict ledger at enumerated trigger points (between operations and with an update in flight, gated), verdict at ledger idleness on the logical clock",
-         "For every (trigger point x old version) of short histories, and sampled for long ones, the peer registers an outdated fully signed state (with the oldest sub-channel states); when the ledger is idle and before the logical clock moves the registered version must be >= the honest party's newest enabled version (also for locked sub-channels), the ledger must accept the watcher's refutation, and after timeout and settlement the honest payout must be >= its newest balance. Histories may end in a final state; triggers include updates in flight on the ledger channel and on a sub-channel, each also with the events of the honest party's own registration held back until the update completed (then the watcher must refute again). The known finding D24 (no adjudicator event reaches the watcher after the newest state was published) is reported as KNOWN-FINDING by its observed history class; a newest state that was never published although older ones were is a violation.",
+         "For every (trigger point x old version) of short histories, and sampled for long ones, the peer registers an outdated fully signed state (with the oldest sub-channel states); when the ledger is idle and before the logical clock moves the registered version must be >= the honest party's newest enabled version (also for locked sub-channels), the ledger must accept the watcher's refutation, and after timeout and settlement the honest payout must be >= its newest balance. Histories may end in a final state; triggers include updates in flight on the ledger channel and on a sub-channel, each also with the events of the honest party's own registration held back until the update completed (then the watcher must refute again). The known finding D24 (no adjudicator event reaches the watcher after the newest state was published) is reported as KNOWN-FINDING by its observed history class; a newest state that was never published although older ones were is a violation. Further triggers: the honest party closed its sub-channel controller (the watcher refutes from its archive, also a second time), and the honest party cancels its request context from inside the update notification.",
          "Trusted: strict ledger and its idleness notion (no call in flight, no subscriber about to wake, every subscriber in Next or waiting for a timeout); the adversary runs no watcher of its own. No wall-clock verdicts.",
          "DESIGN.md §5 C04"),
  "C06": ("exploration", "runtime monitoring: invariant monitors inside the recording persisters of both clients (called under the channel lock) plus result/agreement comparison over generated update programs under schedule noise and the race detector",
-         "Programs of proposals (sequential, same-side concurrent, cross-channel, both-sides concurrent) with accept/reject decisions and handler delays; at every Enabled event the transaction must be fully signed with version = previous+1, persister calls per channel must not overlap, and in runs without timeouts versions differ by at most one, no version gets two fully signed states, Update results agree with both parties' states and both stay ready for further updates.",
+         "Programs of proposals (sequential, same-side concurrent, cross-channel, both-sides concurrent) with accept/reject decisions and handler delays; at every Enabled event the transaction must be fully signed with version = previous+1, persister calls per channel must not overlap, and in runs without timeouts versions differ by at most one, no version gets two fully signed states, Update results agree with both parties' states and both stay ready for further updates. Update calls with an already cancelled context (by the proposer, and by the peer while its handler deliberates) are mixed in; they must leave no trace.",
          "Trusted: recording persister ordering (one shared counter); decisions are fed to the handler in FIFO order per (receiver, channel). Runs with timeouts keep only the fully-signed invariant, as the statement says.",
          "DESIGN.md §5 C06"),
  "C08": ("exploration", "runtime monitoring: real clients opening ledger/sub/virtual channels under bus noise with both sides' results compared; mutated proposals injected on the bus with a recording proposal handler and a barrier; child processes attribute crashes",
@@ -78,11 +78,11 @@ CHECKS = {
          "Trusted: the barrier (a later valid proposal from the same sender answered + bus drained + no handler in flight); only natively encodable proposals are delivered.",
          "DESIGN.md §5 C08"),
  "C07": ("exploration", "runtime monitoring with an adversary holding a valid key: crafted and rewritten updates delivered to a real accept-everything client; an acceptability predicate evaluated inside the client's persister callback for its own signature",
-         "At several life points (plain channel, locked sub-channels, pending funding, pending settlement) the peer sends correctly signed but unsafe updates (wrong actor, signature over another state, every sums-preserving edit of locked sub-allocations, replays) and rewrites its own funding/settlement updates on its link (wrong debits/credits, other amounts, index maps, touching other sub-allocations). Whenever the victim adds its own signature to a received update, the staged state is judged against its current state by an independent predicate written from the statement. Hub workload: the victim routes a virtual channel between the adversary and an honest client; the adversary's funding / settlement proposal is rewritten on its own link (hub debited instead of the sender, debits or credits swapped, one unit taken, other sub-allocations renamed or drained, other amount or index map inside the state) and what the hub countersigns is judged against the proposal message.",
+         "At several life points (plain channel, locked sub-channels, pending funding, pending settlement) the peer sends correctly signed but unsafe updates (wrong actor, signature over another state, every sums-preserving edit of locked sub-allocations, replays) and rewrites its own funding/settlement updates on its link (wrong debits/credits, other amounts, index maps, touching other sub-allocations, a crafted funding agreement in its sub-channel proposal). Whenever the victim adds its own signature to a received update, the staged state is judged against its current state by an independent predicate written from the statement. Hub workload: the victim routes a virtual channel between the adversary and an honest client; the adversary's funding / settlement proposal is rewritten on its own link (hub debited instead of the sender, debits or credits swapped, one unit taken, other sub-allocations renamed or drained, other amount or index map inside the state, proposals with swapped index maps) and what the hub countersigns is judged against the proposal message.",
          "Trusted: the predicates (harness/props/c07 acceptable, acceptableAtHub + refmodel.ValidSuccessor); actor and, at the hub, the virtual channel's state and index map are taken from the tapped message carrying the staged state.",
          "DESIGN.md §5 C07"),
  "C12": ("exploration", "runtime monitoring in child processes: hostile decodable message sequences delivered to a real client at several life points; oracle = process survival (parent attributes deaths to the announced case) plus liveness probes on the attacked and a control channel",
-         "Sequences of 1-4 envelopes from a catalogue of 47 structured hostile messages over every request/response type (built from live templates with valid IDs, versions and signatures) and byte-level mutants that still decode, each delivered only after a serializer round trip, at the life points idle / update in flight / during an opening / after registration, also against a victim that is the hub of a live virtual channel. Afterwards the victim's channel lock must be free and it must answer a valid incoming update within 45 s (library waits on these paths are 10 s), on the attacked and on an untouched control channel.",
+         "Sequences of 1-4 envelopes from a catalogue of 47 structured hostile messages over every request/response type (built from live templates with valid IDs, versions and signatures) and byte-level mutants that still decode, each delivered only after a serializer round trip, at the life points idle / update in flight / during an opening / after registration, also against a victim that is the hub of a live virtual channel; plus protocol deviations of a real adversarial client whose link holds messages back until the victim's wait gave up, replaces responses, or fails the victim's sends (peer gone offline). Afterwards the victim's channel lock must be free and it must answer a valid incoming update within 45 s (library waits on these paths are 10 s), on the attacked and on an untouched control channel.",
          "Trusted: child-process attribution (a death is charged to the most recently announced case); the patience restatement of 'permanently'; the harness holds the adversary's and - to emulate states the victim signed earlier - the victim's key when building virtual channel states.",
          "DESIGN.md §5 C12, appendix C"),
 }
